@@ -19,6 +19,8 @@
    rfp    = [] | [flags]
    cf     = [] | [[0, name]] | [[1, names]]
    variant 0 = repaired code, 1 = code before the repairs.
+   Frames with more than 4096 rows: to_csv (repaired code) is evaluated through to_csv_closed
+   (theorem to_csv_closed_form).
    csv_parse is evaluated through csv_parse_f (Spec/ToCsvFast.v, linear; csv_parse_f = csv_parse is
    theorem csv_parse_fast_eq of Props/C18.v). *)
 From Coq Require Import ZArith List Bool.
@@ -152,6 +154,18 @@ Definition v_call_spec (st:store) (c:call) : val :=
   VL [if (0 <? c_chunk c) && cf_valid (c_fr c) cf then VL [vlist3 (spec_table (c_fr c) (c_rf c) cf)]
       else VErr K_RAISE E_ValueError].
 
+(* frames with more than BIG_ROWS rows: the repaired code is evaluated through its closed form
+   (Props/C18.v to_csv_closed_form: equal to the statement-level model for every argument) *)
+Definition BIG_ROWS : Z := 4096.
+Definition rows_of (fr:frame) : Z := fold_right (fun f m => Z.max (len (snd f)) m) 0 fr.
+
+Definition run_to_csv (vr:variant) (fr:frame) (rf:rowfilter) (cf:colfilter) (chunk:Z) : res bytes :=
+  match vr with
+  | V_fix => if BIG_ROWS <? rows_of fr then to_csv_closed fr rf cf chunk
+             else to_csv (to_csv_fuel fr chunk) vr fr rf cf chunk
+  | V_orig => to_csv (to_csv_fuel fr chunk) vr fr rf cf chunk
+  end.
+
 Definition entry_C18 (v:val) : val :=
   match v with
   | VL [VZ 1; VZ var; fr; rf; cf; VZ chunk; VZ ascii] =>
@@ -168,7 +182,7 @@ Definition entry_C18 (v:val) : val :=
                     else VL [vlist file; vlist3 (csv_parse_f file); reimport_pred vr fk fr rf cf file]
                   | V_fix => VL [vlist file; vlist3 (csv_parse_f file); reimport_pred vr fk fr rf cf file]
                   end)
-               (to_csv (to_csv_fuel fr chunk) vr fr rf cf chunk) in
+               (run_to_csv vr fr rf cf chunk) in
       let spec :=
         if (0 <? chunk) && cf_valid fr cf
         then VL [vlist3 (spec_table fr rf cf); vcols (spec_columns fr rf cf)]
